@@ -85,6 +85,21 @@ func verifC12RunRpc(sv *verifC12Srvs, p *verifC12Plan, q *verifC12Query) {
 		}
 	case "batch":
 		srv := sv.plain
+		// which emitter the node treats as the governance emitter is configuration: the batch of an ORDINARY stream does not depend on
+		// it.  Every other batch query is asked on a server whose governance emitter has the query's address on another chain
+		if ab, err := hex.DecodeString(ahex); err == nil && len(ab) == 32 && (len(q.Seqs)+int(q.EC))%2 == 0 {
+			gch := vaa.ChainID(255)
+			if q.EC == 255 {
+				gch = vaa.ChainID(2)
+			}
+			gk := fmt.Sprintf("alt/%d/%s", gch, ahex)
+			if sv.gov[gk] == nil {
+				var ga vaa.Address
+				copy(ga[:], ab)
+				sv.gov[gk] = publicrpc.NewPublicrpcServer(zap.NewNop(), d, nil, gch, ga)
+			}
+			srv = sv.gov[gk]
+		}
 		resp, err := srv.GetNonGovernanceVAABatch(ctx, &publicrpcv1.GetNonGovernanceVAABatchRequest{
 			EmitterChain: publicrpcv1.ChainID(q.EC), EmitterAddress: ahex, TargetChain: publicrpcv1.ChainID(q.TC), Sequences: q.Seqs})
 		q.Code = verifC12Code(err)
